@@ -10,7 +10,7 @@ from hypothesis import strategies as st
 from harness.algebras import all_var_names, mclass, mshape, natural_key, vclass, vsize
 from harness.scalars import FUNCS, VEC_FUNCS
 
-SCALAR_NAMES = ["x", "y", "x1", "x2", "x10", "w9", "w10", "a", "B2", "z", "k7", "k07"]
+SCALAR_NAMES = ["x", "y", "x1", "x2", "x10", "w9", "w10", "a", "B2", "z", "k7", "k07", "lot_1000000", "lot_999999"]
 VECTOR_NAMES = ["v", "u", "x", "w", "x2", "x10"]
 MATRIX_NAMES = ["A", "S", "M", "W1", "Q2"]   # W1[0,10]: three numeric groups in an element name
 PARAM_NAMES = ["p", "q"]
